@@ -817,7 +817,7 @@ func (s String) Join(args Tuple) (Object, error) {
 		parts = append(parts, string(str))
 		item, err = Next(iterable)
 	}
-	if err != StopIteration {
+	if !IsException(StopIteration, err) {
 		return nil, err
 	}
 	return String(strings.Join(parts, string(s))), nil
